@@ -332,7 +332,7 @@ Proof.
   - unfold run_tx. destruct (validate_basic m) eqn:Hv; [|discriminate].
     destruct (handle _ m) as [x| |] eqn:H; try discriminate. intros [= <-].
     eapply quota_handle; [apply kinv_clear; exact Hi| |exact Hv|exact H]. eapply (quota_inv_frame s); [..|exact Hq]; reflexivity.
-  - intros [= <-]. apply (fold_left_inv quota_inv).
+  - destruct (forallb pchange_valid _); [|discriminate]. intros [= <-]. apply (fold_left_inv quota_inv).
     + intros x c Hx. pose proof (apply_pchange_keeps x c). eapply quota_inv_keeps; eauto.
     + eapply (quota_inv_frame s); [..|exact Hq]; reflexivity.
   - destruct (end_block _) as [se| |] eqn:H; try discriminate. intros [= <-].
